@@ -192,6 +192,7 @@ COMBINATORS = {
     'std::result::Result::map_err': 'res_map_err',
 }
 BOOL_COMBINATORS = {'then': 'bool_then', 'then_some': 'bool_then_some'}
+FN_CALLS = {'std::ops::Fn::call', 'std::ops::FnMut::call_mut', 'std::ops::FnOnce::call_once'}
 
 
 def _new_local(d, ty):
@@ -267,6 +268,52 @@ def _closure_def_of(d, local):
     return found
 
 
+def _resolve_callable(d, op, depth=0):
+    """follow `&x`, `move x`, `copy x` back to the closure local or the fn-item constant that is being called"""
+    if depth > 6:
+        return None
+    if op['k'] == 'const':
+        return op if op.get('c', {}).get('fn') else None
+    if op['k'] not in ('move', 'copy') or [p for p in op['pl']['p'] if p != '*']:
+        return None
+    l = op['pl']['l']
+    if _closure_def_of(d, l) is not None:
+        return {'k': 'move', 'pl': {'l': l, 'p': []}}
+    src = None
+    for blk in d['blocks']:
+        for s_ in blk['st']:
+            if s_['k'] == 'assign' and s_['lhs']['l'] == l and not s_['lhs']['p']:
+                if src is not None:
+                    return None
+                src = s_['rv']
+    if src is None:
+        return None
+    if src['k'] == 'use':
+        return _resolve_callable(d, src['op'], depth + 1)
+    if src['k'] == 'ref' and not [p for p in src['pl']['p'] if p != '*']:
+        return _resolve_callable(d, {'k': 'copy', 'pl': {'l': src['pl']['l'], 'p': []}}, depth + 1)
+    return None
+
+
+def _tuple_ops(d, op):
+    """operands of the argument tuple of Fn::call (the tuple is built right before the call)"""
+    if op['k'] not in ('move', 'copy') or op['pl']['p']:
+        return None
+    l = op['pl']['l']
+    found = None
+    for blk in d['blocks']:
+        for s_ in blk['st']:
+            if s_['k'] == 'assign' and s_['lhs']['l'] == l and not s_['lhs']['p']:
+                if found is not None:
+                    return None
+                rv = s_['rv']
+                if rv['k'] == 'agg' and rv.get('ak') == 'tuple':
+                    found = list(rv['ops'])
+                else:
+                    return None
+    return found
+
+
 def _emit_fn_value_call(facts, d, norm, fop, arg_ops, dest, target, ln, depth):
     """block that evaluates `f(args)` into `dest` and continues at `target`, where f is a closure local (its body is
     spliced in) or a fn item. Returns the entry block index, or None when f cannot be resolved."""
@@ -276,7 +323,8 @@ def _emit_fn_value_call(facts, d, norm, fop, arg_ops, dest, target, ln, depth):
         dp = _closure_def_of(d, floc)
         if dp is None:
             return None
-        paths = facts.norm_index.get(norm(dp), [])
+        # exact def path first (two impls of one trait normalise to the same path)
+        paths = [dp] if dp in facts._raw else facts.norm_index.get(norm(dp), [])
         if len(paths) != 1 or len(facts._raw[paths[0]]) != 1:
             return None
         cd = json.loads(facts._raw[paths[0]][0])
@@ -333,6 +381,8 @@ def desugar_combinators(facts, d, norm, depth=0):
             kind = COMBINATORS.get(np_)
             if kind is None and ('bool' in np_) and np_.rsplit('::', 1)[-1] in BOOL_COMBINATORS:
                 kind = BOOL_COMBINATORS[np_.rsplit('::', 1)[-1]]
+            if kind is None and np_ in FN_CALLS:
+                kind = 'fn_call'
             if kind is None or t['target'] is None:
                 continue
             if _desugar_one(facts, d, norm, bb, kind, depth):
@@ -363,6 +413,21 @@ def _desugar_one(facts, d, norm, bb, kind, depth):
     def set_dest_block(rv, then=T):
         return _new_block(d, [_assign(D, rv, ln)], _goto(then))
 
+    if kind == 'fn_call':
+        # `f(a, b)` through the Fn traits where f is (a reference to) a known closure or fn item: call it directly
+        fop = _resolve_callable(d, args[0]) if len(args) == 2 else None
+        ops = _tuple_ops(d, args[1]) if fop is not None else None
+        if fop is None or ops is None:
+            return False
+        if fop['k'] == 'const':
+            paths = facts.norm_index.get(norm(fop['c']['fn']), [])
+            if len(paths) != 1:
+                return False           # a std function passed by name: leave the call as it is
+        call = _emit_fn_value_call(facts, d, norm, fop, ops, D, T, ln, depth)
+        if call is None:
+            return undo()
+        blk['t'] = _goto(call)
+        return True
     if kind.startswith('opt_') or kind.startswith('res_'):
         adt, variants = (OPT, OPT_VARIANTS) if kind.startswith('opt_') else (RES, RES_VARIANTS)
         o = _as_local(d, blk, args[0], ln)
@@ -489,5 +554,8 @@ def prepare_body(facts, d, norm, depth=0):
     if d['kind'] not in ('Fn', 'AssocFn', 'Closure'):
         return d
     d = desugar_combinators(facts, d, norm, depth)
+    n0 = len(d.get('inlined', []))
     d = inline_new_helpers(facts, d, norm, depth)
+    if len(d.get('inlined', [])) != n0:
+        d = desugar_combinators(facts, d, norm, depth)
     return d
